@@ -62,6 +62,19 @@ def _iface_cls(decorated=False):
 
 
 def _stack(sessions=True, decorated=False):
+    # the iq layer's own lock (guarding its keep-alive bookkeeping) is a recording one: a reply path that leaves it held would
+    # block every later pong for ever
+    import yowsup.layers.protocol_iq.layer as iqmod
+    from checks import c12
+    real_lock = iqmod.Lock
+    iqmod.Lock = lambda: c12.RecLock("iq layer ping-queue lock")
+    try:
+        return _stack2(sessions, decorated)
+    finally:
+        iqmod.Lock = real_lock
+
+
+def _stack2(sessions=True, decorated=False):
     st, bottom, app, mgr = ST.build(enc=True, top=_iface_cls(decorated), sessions=sessions, **ST.FLAG_SETS["all"])
     from yowsup.layers.protocol_iq import YowIqProtocolLayer
     st.setProp(YowIqProtocolLayer.PROP_PING_INTERVAL, 0)
@@ -155,6 +168,46 @@ def h_step(ctx, kind, decorated=False):
     bottom.inject(_reply(rid, is_result, body))
     obs.append(("replayed-reply-invokes-no-callback", len(app.calls) == before))
     obs.append(("replayed-reply-at-most-an-ordinary-stanza", len(app.other) - n_other <= 1))
+    return obs
+
+
+def h_keepalive_pong(ctx, decorated):
+    """the library's own keep-alive ping (sent by the iq layer, registered in ITS registry) is answered: the application has no request of
+    that id, so the pong is an ordinary stanza for it -- delivered once, no callback; an application request outstanding meanwhile is untouched"""
+    from yowsup.layers.protocol_iq.protocolentities import PingIqProtocolEntity
+    st, bottom, app, mgr = _stack(decorated=decorated)
+    iq = [s_ for s_ in st.getLayer(2).sublayers if type(s_).__name__ == "YowIqProtocolLayer"][0] if False else None
+    for pos in range(8):
+        try:
+            layer = st.getLayer(pos)
+        except IndexError:
+            break
+        for s_ in getattr(layer, "sublayers", ()):
+            if type(s_).__name__ == "YowIqProtocolLayer":
+                iq = s_
+    req, body = _request("lastseen")
+    app.request(req, "r")
+    n0 = len(bottom.down)
+    ping = PingIqProtocolEntity()
+    iq.waitPong(ping.getId())                 # what the keep-alive thread does each period
+    iq.sendIq(ping)
+    sent = [n for n in bottom.down[n0:] if n.tag == "iq"]
+    obs = [("keep-alive ping leaves once", len(sent) == 1)]
+    if len(sent) != 1:
+        return obs
+    rid = H.zstr(ctx, "rid")
+    is_result = ctx.flag("reply_is_result")
+    match = core.eq(rid, hooks.dict_get(sent[0].attributes, "id"))
+    app_id = hooks.dict_get(bottom.down[n0 - 1].attributes, "id")
+    ctx.assume(rid != app_id)
+    before = len(app.other)
+    bottom.inject(_reply(rid, is_result, lambda: []))
+    obs.append(("no application callback for the library's own ping", not app.calls))
+    obs.append(("the answer to the library's own ping reaches the application once as an ordinary stanza, any other id does not (%d)" % (len(app.other) - before),
+                _iff(len(app.other) - before == 1, match)))
+    bottom.inject(_reply(app_id, True, body))
+    ok, err = _counts(app, "r")
+    obs.append(("the application's own request is still answered afterwards", len(ok) == 1 and not err))
     return obs
 
 
@@ -468,6 +521,9 @@ def cases(tier):
     for k in ("ping", "lastseen", "group-info", "media-upload", "contact-sync", "picture-get"):
         cs.append(dict(name="sync-reply[%s,interface]" % k, fn=h_sync_reply, args=(k, "interface")))
     cs.append(dict(name="two-stacks[reply on the other connection]", fn=h_two_stacks))
+    for deco in (False, True):
+        cs.append(dict(name="keepalive-pong[%s application]" % ("catch-all" if deco else "plain"), fn=h_keepalive_pong, args=(deco,)))
+    cs.append(dict(name="history[2req,3del,pings and last-seen]", fn=h_history, args=(2, 3, ("ping", "lastseen")), max_paths=20000, timeout_s=300, weight=20))
     cs.append(dict(name="internal[group-info,error reply]", fn=h_internal_groupinfo_error))
     cs.append(dict(name="internal[key-upload]", fn=h_internal_keyupload))
     cs.append(dict(name="internal[key-fetch]", fn=h_internal_keyfetch))
